@@ -103,11 +103,7 @@ RECURSIVE Flatten(_)
 Flatten(s) == IF s = <<>> THEN <<>> ELSE Head(s).offs \o Flatten(Tail(s))
 
 \* ordinal (position in out) of every chunk with the given tag and level, in order
-Ordinals(W, tag, k) == LET I == { i \in 1..Len(W.out) : W.out[i].tag = tag /\ W.out[i].lvl = k }
-                           RECURSIVE Asc(_, _)
-                           Asc(S, acc) == IF S = {} THEN acc
-                                          ELSE LET x == CHOOSE y \in S : \A z \in S : y <= z IN Asc(S \ {x}, Append(acc, x))
-                       IN Asc(I, <<>>)
+Ordinals(W, tag, k) == SelectSeq([i \in 1..Len(W.out) |-> i], LAMBDA i : W.out[i].tag = tag /\ W.out[i].lvl = k)
 
 \* data chunks are consecutive blocks (omitted ones are missing), each of spd samples except the last of a closed signal
 DataOk(W) == \A i \in 1..Len(Chunks(W, "D", 0)) : LET c == Chunks(W, "D", 0)[i] IN c.ts % W.P.spd = 0 /\ c.n <= W.P.spd /\ c.n > 0
